@@ -31,7 +31,7 @@ SPEC = {
     'conf_quick': [('K2', 3)],
     'conf_thorough': [('K2', 3), ('K4', 3)],
 }
-SPEC['thorough'] = X.thorough_spec(SPEC['quick'], [('K13', 'lend'), ('K12', 'lend')])
+SPEC['thorough'] = X.thorough_spec(SPEC['quick'], cross=True, focus=[('K13', 'lend'), ('K12', 'lend')])
 BOUNDS = {t: dict(spec=SPEC[t]) for t in ("quick", "thorough")}
 EXPLANATION = ("explicit-state BFS over operation histories with state de-duplication; every transition executes the "
                "real exchange; traces_validated_against_impl = histories executed through BOTH drivers (sync and "
